@@ -142,6 +142,12 @@ func modelCase(rep *core.Report, prop string, c *CaseResult, governed map[string
 		rep.Count("not_accepted", 1)
 		return
 	}
+	if len(c.TypeErrs) > 0 {
+		// an output that does not type-check is C01's finding; without type information conversions and
+		// calls cannot be told apart, so nothing else is judged on it
+		rep.Count("skipped_output_does_not_typecheck", 1)
+		return
+	}
 	models, _, err := BuildModels(c)
 	if err != nil {
 		rep.Inconclusive("model: " + c.S.ID + ": " + err.Error())
